@@ -54,6 +54,15 @@ FIELDS = [(None, None), (123.4, -7.5), (0.0, 0.0)]  # (true_airspeed, rate_of_cl
 # set False to drop the "climb rate printed as 0" PTF pattern (see report: adjudication needed)
 INCLUDE_ZERO_ROCD_PTF = True
 
+# representative malformations written into model files (block row = 3 * FL index + mass index)
+FILE_MALS = [
+    dict(kind='remove', ph='climb', r=4),
+    dict(kind='dup+missing', ph='cruise', r=4, d=5),
+    dict(kind='move-fl', ph='climb', rows=[4], to='between'),
+    dict(kind='remove-per-level', ph='cruise', rows=[0, 4, 8]),
+]
+FILE_PAD = 1 << 16  # 'frozen' stat: every version of a file is padded to this size and keeps the first mtime
+
 F_ORDER = 'C06-descent-row-order'
 F_DUP = 'C06-duplicate-pair-accepted'
 F_UNIT = 'C06-metres-roundtrip'
@@ -250,6 +259,27 @@ def sublattices(tier, seed):
     cases.append(dict(t=None, q=dict(k='ptf-file', path='tests/data/verification/legacy/legacy_performance.PTF')))
     subs.append(dict(name='generated PTF files', axes=dict(flset=list(rb.PTF_FLSETS), blank=list(rb.PTF_BLANKS), fmt=list(rb.PTF_FORMATS),
                                                           masses=list(rb.PTF_MASSES), special=list(rb.PTF_SPECIALS)), cases=cases))  # fmt: skip
+    # model files: the same path loaded again after its content changed (PerformanceModel.load)
+    v1, v2, v3 = dict(t=['s3', 'lin']), dict(t=['s3', 'zig']), dict(t=['s4', 'lin'])
+    mals = [dict(t=['s3', 'lin'], mal=m) for m in FILE_MALS]
+    seqs = [[v1, v2], [v2, v1], [v1, v3], [v3, v1], [v1, v1], [v1, v2, v1], [v1, v2, v3], [mals[0], mals[2]]]
+    for mm in mals:
+        seqs += [[v1, mm], [mm, v1], [v2, mm], [v1, mm, v2]]
+    cases = [dict(t=None, q=dict(k='file-seq', steps=sq, spell=sp, rewrite=rw, stat=stt))
+             for sq in seqs for sp in ('str', 'pathlib', 'dotdot') for rw in ('inplace', 'replace') for stt in ('natural', 'frozen')]  # fmt: skip
+    subs.append(dict(name='model file loaded again from the same path after its content changed',
+                     axes=dict(sequence=[' -> '.join('malformed:' + x['mal']['kind'] if 'mal' in x else '/'.join(x['t']) for x in sq) for sq in seqs],
+                               second_path_spelling=['str', 'pathlib', 'dotdot'], rewrite=['inplace', 'replace'],
+                               stat=['natural', 'frozen (same size, same mtime)']), cases=cases))  # fmt: skip
+    # PTF -> model file generation (the real `legacy` command), output path reused
+    pa = dict(flset='f3', blank='none', fmt='sample', masses='b738')
+    pbs = [dict(flset='f6', blank='low2', fmt='sample', masses='b738'), dict(flset='f3', blank='none', fmt='sample', masses='round'),
+           dict(flset='f3', blank='alt', fmt='dec3', masses='b738')]  # fmt: skip
+    pseqs = [[pa, pa], [pa, pbs[0], pa]] + [x for pb in pbs for x in ([pa, pb], [pb, pa])]
+    cases = [dict(t=None, q=dict(k='ptf-seq', steps=sq, ptf_path=pp, stat=stt))
+             for sq in pseqs for pp in ('same', 'different') for stt in ('natural', 'frozen')]  # fmt: skip
+    subs.append(dict(name='PTF -> generated model file -> load, output path reused',
+                     axes=dict(sequences=len(pseqs), ptf_path=['same', 'different'], stat=['natural', 'frozen']), cases=cases))
     if INCLUDE_ZERO_ROCD_PTF:
         cases = [dict(t=None, q=dict(k='ptf', flset=fs, blank='none', fmt='sample', masses='b738', special='plain', zero=True))
                  for fs in rb.PTF_FLSETS]  # fmt: skip
@@ -280,6 +310,11 @@ def worker_init(tier, seed):
         rules=dict(climb=SimpleFlightRules.CLIMB, cruise=SimpleFlightRules.CRUISE, descent=SimpleFlightRules.DESCEND),
         models={}, tier=tier, seed=seed,
     )  # fmt: skip
+    import tomllib
+
+    _S['sample_path'] = str(env.REPO / 'src' / 'AEIC' / 'data' / 'performance' / 'sample_performance_model.toml')
+    with open(_S['sample_path'], 'rb') as fp:
+        _S['sample_toml'] = tomllib.load(fp)
 
 
 def _shipped_rows():
@@ -641,8 +676,8 @@ def _phase_order(t, q):
     return 'phase-order-swept', _dedupe(vio)
 
 
-def _malformed(t, q):
-    m = q['mal']
+def _mutate(t, m):
+    """Apply malformation m to table t -> (blocks, missing row, must_refuse, must_accept)."""
     blk = rb.blocks(t[0], t[1])
     st = rb.get_struct(t[0])
     missing = None
@@ -712,6 +747,19 @@ def _malformed(t, q):
         # a complete smaller grid is a valid table only if it still has three masses and two levels
         shape = rb.phase_shape(allrows)[m['ph']]
         must_accept = (not must_refuse) and shape[1] == 3 and shape[0] >= 2
+    return blk, missing, must_refuse, must_accept
+
+
+def _check_all_nodes(pm, ref, vio, label, phases=rb.PHASES):
+    allm = sorted({k[1] for p in rb.PHASES for k in ref.nodes[p]})
+    for ph in phases:
+        for (fl, mass) in sorted(ref.nodes[ph]):
+            _check_point(pm, ref, ph, fl, [allm.index(mass), 0.0], _alt(fl, 'a'), vio, label, 'node')
+
+
+def _malformed(t, q):
+    m = q['mal']
+    blk, missing, must_refuse, must_accept = _mutate(t, m)
     rows = rb.order_rows(blk, t[2])
     vio = []
     label = m['kind'] + (f':{len(m["rows"])}' if m['kind'].startswith('move') else '')
@@ -747,9 +795,7 @@ def _malformed(t, q):
             if _call(pm, ph, _alt(fl0, 'a'), m0)[0] == 'raise':
                 late.append(ph)
                 continue
-        for (fl, mass) in sorted(ref.nodes[ph]):
-            _check_point(pm, ref, ph, fl, [sorted({k[1] for p in rb.PHASES for k in ref.nodes[p]}).index(mass), 0.0],
-                         _alt(fl, 'a'), vio, f'after {m["kind"]}', 'node')  # fmt: skip
+        _check_all_nodes(pm, ref, vio, f'after {m["kind"]}', phases=[ph])
     return f'load-accepted:{label}' + (':refused-at-evaluate' if late else ''), _dedupe(vio)
 
 
@@ -786,6 +832,17 @@ def _ptf(q):
             return f'ptf-refused:{type(e).__name__}', vio
         if (ptf.low_mass, ptf.nominal_mass, ptf.high_mass) != tuple(masses):
             vio.append(V('ptf-row-not-reproduced', f'{q}: mass levels read {(ptf.low_mass, ptf.nominal_mass, ptf.high_mass)} != {masses}'))
+        nrows = len(tab['data'])
+        _ptf_compare(pm, exp, masses, q, vio, nrows)
+        return f'ptf-reproduced:{len(exp["cruise"])}of{len(exp["climb"])}-cruise-rows', _dedupe(vio)
+    finally:
+        shutil.rmtree(d, ignore_errors=True)
+
+
+def _ptf_compare(pm, exp, masses, q, vio, nrows=None):
+    """Every PTF row (printed numbers, converted with the library's unit constants) against the model."""
+    U = _S['U']
+    if True:
         low, nom, high = (float(x) for x in masses)
         kt, fpm, mn = U.KNOTS_TO_MPS, U.FPM_TO_MPS, 1.0 / U.MINUTES_TO_SECONDS
         want = []  # (phase, fl, mass, (tas, rocd, ff))
@@ -797,8 +854,7 @@ def _ptf(q):
                 want.append(('cruise', fl, m, (tas * kt, 0.0, f * mn)))
         for fl, tas, r, fuel in exp['descent']:
             want.append(('descent', fl, nom, (tas * kt, -r * fpm, fuel * mn)))
-        nrows = len(tab['data'])
-        if nrows != len(want):
+        if nrows is not None and nrows != len(want):
             vio.append(V('ptf-row-not-reproduced', f'{q}: generated table has {nrows} rows, PTF has {len(want)} (phase, FL, mass) entries'))
         for ph, fl, m, e in want:
             kind, res = _call(pm, ph, fl / U.METERS_TO_FL, m)
@@ -807,7 +863,116 @@ def _ptf(q):
                 vio.append(V('ptf-row-not-reproduced', f'{q}: {ph} FL {fl} mass {m}: {type(res).__name__}: {str(res)[:200]}'))
             elif not rb.close3(res, e, tol):
                 vio.append(V('ptf-row-not-reproduced', f'{q}: {ph} FL {fl} mass {m}: model gives {res}, PTF row converts to {e}'))
-        return f'ptf-reproduced:{len(exp["cruise"])}of{len(exp["climb"])}-cruise-rows', _dedupe(vio)
+
+
+def _put(path, data, rewrite, stat, first_ns):
+    """(Re)write a file; 'frozen' keeps size and timestamps of the first version."""
+    if stat == 'frozen':
+        assert len(data) + 3 <= FILE_PAD
+        data = data + b'\n#' + b'x' * (FILE_PAD - len(data) - 3) + b'\n'
+    if rewrite == 'replace':
+        tmp = path + '.new'
+        with open(tmp, 'wb') as fp:
+            fp.write(data)
+        os.replace(tmp, path)
+    else:
+        with open(path, 'wb') as fp:
+            fp.write(data)
+    if stat == 'frozen' and first_ns is not None:
+        os.utime(path, ns=first_ns)
+    st = os.stat(path)
+    return (st.st_atime_ns, st.st_mtime_ns)
+
+
+def _spell(d, name, how):
+    p = os.path.join(d, name)
+    if how == 'pathlib':
+        from pathlib import Path
+
+        return Path(p)
+    if how == 'dotdot':
+        return os.path.join(d, 'sub', '..', name)
+    return p
+
+
+def _file_seq(q):
+    """One path, several successive contents; after every (re)write the file is loaded with
+    PerformanceModel.load and judged on the content it has *now*."""
+    import tomli_w
+
+    vio = []
+    ocs = []
+    d = tempfile.mkdtemp(prefix='vf_')
+    try:
+        os.mkdir(os.path.join(d, 'sub'))
+        path = os.path.join(d, 'model.toml')
+        first_ns = None
+        for k, step in enumerate(q['steps']):
+            t = step['t'] + ['gen', 'std']
+            if 'mal' in step:
+                blk, missing, must_refuse, must_accept = _mutate(t, step['mal'])
+                rows = rb.order_rows(blk, 'gen')
+            else:
+                rows, missing, must_refuse, must_accept = _rows_for(t), None, False, True
+            doc = dict(_S['sample_toml'])
+            doc['flight_performance'] = rb.to_input(rows, 'std')
+            ns = _put(path, tomli_w.dumps(doc).encode(), q['rewrite'], q['stat'], first_ns)
+            first_ns = first_ns or ns
+            where = f'step {k + 1} of {len(q["steps"])} on one path ({q["spell"]}, {q["rewrite"]}, {q["stat"]}), content {step}'
+            try:
+                pm = _S['PM'].load(_spell(d, 'model.toml', q['spell'] if k else 'str'))
+            except Exception as e:  # noqa: BLE001
+                if must_accept:
+                    vio.append(V('valid-table-refused', f'{where}: a complete three-mass grid, but load raised {type(e).__name__}: {str(e)[:300]}'))
+                ocs.append('refused')
+                continue
+            ocs.append('loaded')
+            if must_refuse:
+                kind, res = _call(pm, step['mal']['ph'], missing['fl'] / _S['U'].METERS_TO_FL, missing['mass'])
+                vio.append(V('incomplete-grid-accepted', f'{where}: accepted at load although ({missing["fl"]}, {missing["mass"]}) is missing '
+                                                         f'from the {step["mal"]["ph"]} grid of the file; evaluating there gives {res!r}'))  # fmt: skip
+            elif must_accept:
+                _check_all_nodes(pm, rb.RefTable(rows), vio, where)
+        return 'file-seq:' + '>'.join(ocs), _dedupe(vio)
+    finally:
+        shutil.rmtree(d, ignore_errors=True)
+
+
+def _ptf_seq(q):
+    """PTF file -> `make_performance_model legacy` -> model file -> PerformanceModel.load, several
+    times with the same output path; every generated model must reproduce the PTF it was made from."""
+    from click.testing import CliRunner
+
+    vio = []
+    ocs = []
+    d = tempfile.mkdtemp(prefix='vf_')
+    try:
+        out = os.path.join(d, 'generated.toml')
+        first_ns = {}
+        for k, step in enumerate(q['steps']):
+            text, exp = rb.make_ptf(step['flset'], step['blank'], step['fmt'], step['masses'], 'plain')
+            ptf_path = os.path.join(d, 'input.PTF' if q['ptf_path'] == 'same' else f'input{k}.PTF')
+            first_ns[ptf_path] = _put(ptf_path, text.encode(), 'inplace', q['stat'], first_ns.get(ptf_path))
+            where = f'step {k + 1} of {len(q["steps"])} into one output file (PTF path {q["ptf_path"]}, {q["stat"]}), PTF {step}'
+            res = CliRunner().invoke(_S['mpm'].cli, ['--output-file', out, 'legacy', '--lto-source', 'custom', '--lto-file', _S['sample_path'],
+                                                     '--ptf-file', ptf_path, '--aircraft-class', 'narrow', '--number-of-engines', '2'])  # fmt: skip
+            if res.exit_code != 0:
+                vio.append(V('ptf-model-not-loadable', f'{where}: generation failed: {res.exception!r} {res.output[-200:]}'))
+                ocs.append('generation-failed')
+                continue
+            if q['stat'] == 'frozen':
+                with open(out, 'rb') as fp:
+                    data = fp.read()
+                first_ns[out] = _put(out, data, 'inplace', 'frozen', first_ns.get(out))
+            try:
+                pm = _S['PM'].load(out)
+            except Exception as e:  # noqa: BLE001
+                vio.append(V('ptf-model-not-loadable', f'{where}: {type(e).__name__}: {str(e)[:300]}'))
+                ocs.append('refused')
+                continue
+            ocs.append('reproduced')
+            _ptf_compare(pm, exp, rb.PTF_MASSES[step['masses']], where, vio)
+        return 'ptf-seq:' + '>'.join(ocs), _dedupe(vio)
     finally:
         shutil.rmtree(d, ignore_errors=True)
 
@@ -854,6 +1019,10 @@ def _dispatch(case):
         return _sweep_shipped(case['t'], q)
     if k == 'edge-sweep':
         return _edge_sweep(case['t'], q)
+    if k == 'file-seq':
+        return _file_seq(q)
+    if k == 'ptf-seq':
+        return _ptf_seq(q)
     return _run_query(case['t'], q)
 
 
